@@ -312,9 +312,10 @@ func TestVerifC08(t *testing.T) {
 			res.Violate(sig, fmt.Sprintf(format, args...)+fmt.Sprintf(" [server answers %d (-1: never)]", code), map[string]any{"status": code})
 		}
 		switch {
-		case code == 200:
+		case code >= 200 && code < 300:
+			// "success" is the 2xx class: the server has acknowledged the report
 			if markerErr != nil || stagedErr == nil {
-				fail("status-200-not-marked", "after 200: marker present=%v, staged report present=%v", markerErr == nil, stagedErr == nil)
+				fail("success-not-marked", "after a %d answer: marker present=%v, staged report present=%v (the report would be sent, and acknowledged, again on every run)", code, markerErr == nil, stagedErr == nil)
 			}
 		case code >= 400 && code < 500:
 			if markerErr == nil {
